@@ -199,7 +199,7 @@ func (h *Handler) handleRequest(host *packet.Host, p packet.DHCP4, options packe
 
 		if lease.State != StateAllocated ||
 			lease.Addr.IP != reqIP || !bytes.Equal(lease.Addr.MAC, p.CHAddr()) ||
-			!subnet.LAN.Contains(lease.Addr.IP) {
+			!subnet.LAN.Contains(lease.Addr.IP) || lease.DHCPExpiry.Before(time.Now()) {
 			Logger.Msg("request NACK - rebooting").ByteArray("xid", p.XId()).IP("ip", reqIP).Write()
 
 			if h.mode == ModeSecondaryServer || (h.mode == ModeSecondaryServerNice && captured) {
